@@ -14,6 +14,7 @@ from .runner import Harness, Module, REPO
 from . import p_c02, p_c03, p_c05, p_c06, p_c07, p_c08, p_c09, p_c10
 from . import shapes as S
 
+BARE_MACROS = set()   # std macros the templates invoke without an absolute path (filled by harvest())
 KEYWORDS = set('''as break const continue crate else enum extern false fn for if impl in let loop match mod move mut pub ref return self Self static struct super
 trait true type unsafe use where while async await dyn abstract become box do final macro override priv typeof unsized virtual yield try union'''.split())
 PRIMS = set('u8 u16 u32 u64 u128 usize i8 i16 i32 i64 i128 isize bool char str f32 f64'.split())
@@ -62,6 +63,11 @@ def harvest():
                     idents[w] = idents.get(w, 0) + 1
             for m in re.finditer(r'format_ident!\(\s*"([^"]+)"', src):
                 patterns.add(m.group(1))
+            for body in _macro_bodies(src, 'quote') + _macro_bodies(src, 'quote_spanned'):
+                body = re.sub(r'//[^\n]*', ' ', body)
+                for m in re.finditer(r'(::\s*)?\b([a-z_][a-z0-9_]*)\s*!\s*[\(\[\{]', body):
+                    if not m.group(1) and m.group(2) not in ('quote', 'quote_spanned', 'format_ident'):
+                        BARE_MACROS.add(m.group(2))
     return idents, sorted(patterns)
 
 
@@ -120,6 +126,9 @@ SHADOW = '''    // user items shadowing the prelude names the generated code men
     pub trait Hash {} pub trait Into {} pub trait From {} pub trait Deref {} pub trait DerefMut {} pub trait Sized {}
     pub mod core {} pub mod std {} pub mod cmp {} pub mod fmt {} pub mod hash {} pub mod clone {} pub mod default {} pub mod ops {} pub mod convert {} pub mod mem {} pub mod slice {} pub mod marker {}
     pub fn unreachable() {} pub fn stringify() {} pub fn drop() {}
+    // user macros named like the std macros the generated code invokes
+    #[allow(unused_macros)] macro_rules! stringify { ($($t:tt)*) => { "shadowed" } }
+    #[allow(unused_macros)] macro_rules! unreachable { ($($t:tt)*) => { panic!("shadowed unreachable") } }
 '''
 
 
@@ -147,9 +156,13 @@ def make_wrap(shadow, glob_variants, inherent=False):
         extra = ''
         if glob_variants and t.kind == 'enum' and t.variants:
             extra = f'    #[allow(unused_imports)]\n    use self::{t.name}::*;\n'
-        inh = INHERENT.format(name=t.name) if inherent and not t.generics else ''
+        inh = INHERENT.format(name=t.name).replace('panic!(', '::core::panic!(') if inherent and not t.generics else ''
+        macros = ''
+        if shadow:
+            for mname in sorted(BARE_MACROS - {'stringify', 'unreachable'}):
+                macros += f'    #[allow(unused_macros)] macro_rules! {mname} {{ ($($t:tt)*) => {{ ::core::compile_error!("a user macro named {mname} at the derive site was reached by generated code") }} }}\n'
         return ('pub mod hostile {\n    #![allow(dead_code, unused_imports, non_camel_case_types, non_snake_case, unused_variables)]\n    use educe::Educe;\n'
-                + (SHADOW if shadow else '') + extra + inner + inh + '}\n' + f'pub use self::hostile::{t.name};\n')
+                + (SHADOW if shadow else '') + macros + extra + inner + inh + '}\n' + f'pub use self::hostile::{t.name};\n')
     return wrap
 
 
@@ -383,7 +396,7 @@ def gen(tier, seed):
     mods += generic_modules(n, upper)
     for m in mods:
         m.functions = FUNCTIONS
-    return mods, dict(harvested_identifiers=len(idents), field_name_pool=fields[:60], type_name_pool=upper[:40], format_ident_patterns=patterns)
+    return mods, dict(bare_macros_in_templates=sorted(BARE_MACROS), harvested_identifiers=len(idents), field_name_pool=fields[:60], type_name_pool=upper[:40], format_ident_patterns=patterns)
 
 
 def classes_for(name, tag, shadow, glob):
